@@ -16,6 +16,7 @@ import time
 import warnings
 
 from harness.common import Run, coq_list
+from harness.translate import c13_calls
 
 META = dict(
     technique="Coq theorems on the store-of-States + generator-tape model of Api/ApiModel.v (public calls as operation scripts: a script "
@@ -52,6 +53,27 @@ OBLIGATIONS = [
     "C13_state_interface_discharged", "C13_estimate_pure_state", "C13_simulate_pure_state", "C13_mcmc_clean_state",
     "C13_history_independent_state", "C13_state_examples",
 ]
+
+SRC_OBLIGATIONS = [
+    # source-level tie (Api/SrcProg*.v): the programs regenerated from today's source denote the scripts above
+    "C13_src_estimate_pure", "C13_src_examples",
+]
+OBLIGATIONS += SRC_OBLIGATIONS
+
+
+def translate(run: Run) -> bool:
+    """T1: regenerate coq/gen/GenC13.v (the public calls as source-level programs) from $VERIF_REPO; fail closed."""
+    try:
+        ok = c13_calls.translate(run)
+    except Exception as e:  # noqa - an AST shape the translator has never met must not stop the search
+        import traceback
+        run.broken("translate:GenC13", f"translator crashed: {type(e).__name__}: {e}\n{traceback.format_exc()[-800:]}", kind="broken-translation")
+        ok = False
+    if not ok:
+        # never leave the programs of an earlier run behind: the proofs must not be checked against a stale translation
+        run.gen("GenC13", "(* the translation of this run FAILED (harness/translate/c13_calls.py): no program *)\n")
+    return ok
+
 
 SCRATCH = f"/tmp/scratch/c13-check-{os.getpid()}"
 F6_SIG = "scipy_minimize:start-point-from-individual-values-left-by-fit"
@@ -845,6 +867,34 @@ def coq_nats(l):
     return coq_list([str(int(x)) for x in l])
 
 
+SRC_HEADER = ("From Coq Require Import List Arith Bool String. Import ListNotations.\n"
+              "From Leaspy Require Import Api.ApiModel Api.ApiInst Api.ApiTie Api.ApiCalls Api.ApiCallsTie Api.SrcProg Api.SrcProgTie.\n")
+SRC_CASE = "sinst * list (option unit) * list rop"
+
+
+def coq_s(x: str) -> str:
+    return '"' + x.replace('"', '""') + '"%string'
+
+
+def coq_sinst(var_ix, groups, n, keys=None, reads=None, work=None, rep=None):
+    """Static part of an instance of Api/SrcProg.v (SrcProgTie.sinst) as a Coq literal."""
+    names = coq_list([f"({coq_s(k)}, {v})" for k, v in sorted(var_ix.items())])
+    g = [coq_nats(groups.get(k, [])) for k in ("obs", "ind", "params", "hyper", "scal")]
+    ks = coq_list([f"({coq_s(d)}, {coq_list([coq_nats(l) for l in per])})" for d, per in sorted((keys or {}).items())])
+    rd = coq_list([f"({v}, {coq_nats(l)})" for v, l in sorted((reads or {}).items())])
+    wk = coq_list([f"({coq_s(tag)}, {coq_list([coq_trace(t) for t in per])})" for tag, per in sorted((work or {}).items())])
+    rp = coq_list([f"({coq_s(tag)}, {coq_nats(per)})" for tag, per in sorted((rep or {}).items())])
+    return f"(SInst {names} {' '.join(g)} {n} {ks} {rd} {wk} {rp})"
+
+
+def model_groups(model, var_ix):
+    cls = var_classes(model)
+    return dict(obs=[var_ix[om.name] for om in model.obs_models],
+                ind=[var_ix[n] for n in sorted(n for n in var_ix if cls[n] == "IndividualLatentVariable")],
+                params=[var_ix[n] for n in model.parameters_names],
+                hyper=[var_ix[n] for n in model.hyperparameters_names])
+
+
 def record_call(model, op, kind):
     from harness.recorder import Recorder
     built, _ = build_inputs(model, op, kind)
@@ -854,13 +904,14 @@ def record_call(model, op, kind):
     return rec.events, res
 
 
-def trace_tie(run: Run, thorough: bool):
-    """Recorded State operations of the real calls vs the model's scripts, inside Coq."""
+def trace_tie(run: Run, thorough: bool, src_ok: bool = False):
+    """Recorded State operations of the real calls vs the model's scripts (and, when the translation of this run succeeded,
+    vs the programs regenerated from the source), inside Coq."""
     from harness import synth
     from leaspy.models import BaseModel
     wd = tmpdir()
-    cases = {"estimate": [], "simulate": [], "mcmc": [], "scipy": []}
-    meta = {"estimate": [], "simulate": [], "mcmc": [], "scipy": []}
+    cases = {k: [] for k in ("estimate", "simulate", "mcmc", "scipy", "estimate_src", "mcmc_src", "scipy_src", "simulate_src")}
+    meta = {k: [] for k in cases}
     kinds = ["logistic", "linear", "joint"] + (["shared_speed_logistic"] if thorough else [])
     try:
         for kind in kinds:
@@ -892,6 +943,11 @@ def trace_tie(run: Run, thorough: bool):
                 except EncodeError as e:
                     tie_broken(run, "estimate", "foreign-state", str(e), dict(kind=kind, ops=[op], history=hist))
                     t = None
+                if t is not None and src_ok:
+                    g = model_groups(model, var_ix)
+                    si = coq_sinst(var_ix, g, len(tp), keys={"individual_parameters": [[var_ix[n] for n in ip[i].keys()] for i in tp]})
+                    cases["estimate_src"].append(f"({'true' if kind == 'joint' else 'false'}, {si}, {shape}, {coq_trace(t)})")
+                    meta["estimate_src"].append(dict(kind=kind, history=hist, op=op, trace=t))
                 if t is not None:
                     cases["estimate"].append(f"({anc_l}, {coq_nats(kept)}, {var_ix['t']}, {coq_nats([var_ix[n] for n in outs])}, {reqs}, {shape}, {coq_trace(t)})")
                     meta["estimate"].append(dict(kind=kind, history=hist, op=op, trace=t))
@@ -942,16 +998,24 @@ def trace_tie(run: Run, thorough: bool):
               ("simulate", "list (list nat) * list nat * list (option unit) * list rop", "check_simulate_call"),
               ("mcmc", "list (list nat) * list nat * list nat * list nat * list (option unit) * list rop", "check_mcmc_call"),
               ("scipy", "list (list nat) * list nat * list nat * list nat * list (option unit) * nat * list rop", "check_scipy_call")]
+    if src_ok:
+        checks += [("estimate_src", "bool * " + SRC_CASE, "check_estimate_src")]
     for name, ty, chk in checks:
+        header = SRC_HEADER if name.endswith("_src") else TIE_HEADER
         if not cases[name]:
             run.broken(f"trace:{name}:no-case", "no recorded call could be encoded", kind="broken-correspondence")
             continue
-        bad = run.vm_bad_indices(f"tie_{name}", TIE_HEADER, ty, cases[name], chk)
+        bad = run.vm_bad_indices(f"tie_{name}", header, ty, cases[name], chk)
         for m in meta[name]:
             run.case(("trace", name, m["kind"], m["history"], json.dumps(m["op"], sort_keys=True)), nontrivial=True)
             run.count("trace_ops", f"{name}:{m['kind']}", len(m["trace"]))
         for i in bad or []:
             m = meta[name][i]
+            if name.endswith("_src"):
+                tie_broken(run, name, "not-an-execution-of-the-generated-program",
+                           f"recorded {name[:-4]} call on a {m['kind']} model ({m['history']}) is not an execution of the program "
+                           f"regenerated from the source (coq/gen/GenC13.v)", dict(kind=m["kind"], history=m["history"], ops=[m["op"]]))
+                continue
             why = explain(name, m)
             tie_broken(run, name, why[0], f"recorded {name} call on a {m['kind']} model ({m['history']}) is not the model's script: {why[1]}",
                        dict(kind=m["kind"], history=m["history"], ops=[m["op"]]))
@@ -1009,12 +1073,17 @@ def explain(name, m):
 # ----------------------------------------------------------------------------- entry points
 
 
-def build_tie(run: Run):
+def build_tie(run: Run, src_ok: bool = False):
     from harness.common import make
     ok, out = make(["theories/Api/ApiCallsTie.vo"], jobs=8)
     if not ok:
         run.broken("build:ApiCallsTie", out[-1500:])
-    return ok
+    ok2 = False
+    if ok and src_ok:
+        ok2, out = make(["theories/Api/SrcProgTie.vo"], jobs=8)
+        if not ok2:
+            run.broken("build:SrcProgTie", out[-1500:])
+    return ok, ok2
 
 
 def customised_call_probe(run: Run):
@@ -1096,11 +1165,13 @@ def main(run: Run):
     th = threading.Thread(target=lambda: box.update(results=run_workers(side, seqs, 10 if thorough else 7, 1500 if thorough else 85)))
     th.start()
     try:
+        ok_t = translate(run)
         run.prove("C13", OBLIGATIONS)
         run.log(f"proved {len(run.discharged)}/{len(OBLIGATIONS)} obligations")
-        if build_tie(run):
+        ok_tie, ok_src = build_tie(run, ok_t)
+        if ok_tie:
             use_impl()
-            trace_tie(run, thorough)
+            trace_tie(run, thorough, ok_src)
             run.log("trace correspondence done")
         try:
             use_impl()
